@@ -65,6 +65,12 @@ func nOut(ins Instr, bits int) int {
 	if isAssert(ins.Op) {
 		return 0
 	}
+	if ins.Op == "GDecoder3" {
+		return 3
+	}
+	if ins.Op == "GPartition" {
+		return 2
+	}
 	return 1
 }
 
